@@ -3277,3 +3277,400 @@ def C17(ctx, model, tier, models):
             ctx.ob("CEN-P", key, ok, "%s: %s" % (hint, why), e.loc)
     ctx.ob("CEN-P", "census:total", total >= 60, "%d panic-capable sites classified: %s" % (total, dict(sorted(classes.items()))))
     ctx.floor("CEN-P", 60)
+
+
+# ============================================================================= C18 / C19 atomicity
+
+GOOD_ORD = {"load": {"Acquire", "SeqCst"}, "store": {"Release", "SeqCst"}}
+RMW_ORD = {"AcqRel", "SeqCst"}
+
+
+def lemma_atm_order(ctx, v):
+    """ATM-order: no Relaxed (or too weak) ordering on any atomic access of the operator."""
+    bad = []
+    n = 0
+    for b in v.op.bodies:
+        for e in v.all_effects(b):
+            if e.kind != "atomic" or e.tracing:
+                continue
+            n += 1
+            ords = e.orderings
+            if e.op in ("load", "store"):
+                ok = len(ords) == 1 and ords[0] in GOOD_ORD[e.op]
+            elif e.op in ("fetch_update", "compare_exchange", "compare_exchange_weak"):
+                ok = len(ords) == 2 and ords[0] in RMW_ORD and ords[1] in ("Acquire", "SeqCst")
+            else:
+                ok = len(ords) == 1 and ords[0] in RMW_ORD
+            if not ok:
+                bad.append("%s with %s at %s" % (e.op, ords, e.loc))
+    ctx.ob("ATM-order", "%s:ATM-order" % v.name, not bad and n > 0,
+           "all %d atomic accesses use acquire/release (or stronger) orderings" % n if not bad else "; ".join(bad[:3]), v.loc(v.op.id))
+
+
+def lemma_atm_no_cta(ctx, v, h, variants):
+    """ATM-no-cta: in a member arm no branch on a plain load of an atomic guards a write of the same atomic."""
+    bad = []
+    for var in variants:
+        for p in v.arm(h, var):
+            for (i, a, ev) in guards_before(p, len(p.events)):
+                cells = set()
+                for x in walk(ev[1]):
+                    if x[0] == "aload":
+                        cells.add(cell_key(x[1]))
+                for ck in cells:
+                    later = [e for j, e in ev_effects(p) if j > i and e.kind == "atomic" and e.op != "load" and cell_key(e.cell) == ck]
+                    if later:
+                        bad.append("%s.%s: load of %s decides a later %s of the same atomic (%s)" % (v.label(h), VSHORT[var], v.cellname(later[0].cell), later[0].op, later[0].loc))
+    ctx.ob("ATM-no-cta", v.key(h, None, "ATM-no-cta"), not bad, "no check-then-act on an atomic in the member arms" if not bad else "; ".join(sorted(set(bad))[:3]), v.loc(h))
+
+
+def lemma_atm_rcu(ctx, v):
+    """ATM-rcu: value/list cells written from member arms are updated through rcu only (never load-modify-store)."""
+    bad = []
+    n = 0
+    tb = v.talkback_cells()
+    for k, c in v.op.cells.items():
+        if k in tb:
+            continue
+        ws = [(e, b) for e, b in cell_writes(v, k) if e.kind == "cell"]
+        for e, b in ws:
+            n += 1
+            if e.op != "rcu" and v.op.roles.get(b) in ("UP", "UP_INNER"):
+                bad.append("%s written by %s at %s" % (c.name, e.op, e.loc))
+    ctx.ob("ATM-rcu", "%s:ATM-rcu" % v.name, not bad, "shared value cells are updated by rcu (CAS loop) only (%d writes)" % n if not bad else "; ".join(bad[:3]), v.loc(v.op.id))
+
+
+@prop("C18", "other",
+      "Static atomicity analysis instead of schedule exploration, for merge and all 12 combine arities, both configurations; W3 "
+      "(thorough) pins that every captured cell is a Send + Sync type, so races are logical only. Once-clauses by counter "
+      "monotonicity, which is interleaving-independent: greeting GRD-once (merge post(start_count)==1 from 0; combine "
+      "post(n_start)==0 from N) and completion GRD-once (end_count==n / n_end==0), every write of each counter being the same "
+      "unit-step AcqRel RMW; merge's Data arm is a stateless relay (nothing to race on); combine: ATM-single-writer (slot idx of both "
+      "tuples is touched only by member idx, the handlers cover 0..N-1), ATM-rcu (the value tuple is updated by CAS loop only), "
+      "ORD-pub-signal (the rcu publication dominates the n_data RMW that announces it - FIX-2), the emitting test n_data == 0 is on a "
+      "value obtained after the thread's own publication and the tuple is loaded after it; ATM-no-cta on all member arms; ATM-order "
+      "(no Relaxed; loads Acquire, stores Release, RMWs AcqRel - the property's SC-granularity premise). No interleavings are "
+      "enumerated; clauses the property does not list (a datum racing a sibling's error) are not claimed; weak-memory behaviour "
+      "beyond the orderings present is not analysed.",
+      axioms=["A1", "A2", "A6 (per member)"])
+def C18(ctx, model, tier, models):
+    census_operators(ctx, model)
+    n = 0
+    for v in views(model):
+        if v.family == "merge":
+            merge_lemmas(ctx, v)
+        elif v.family == "combine":
+            combine_lemmas(ctx, v)
+        else:
+            continue
+        n += 1
+        lemma_atm_order(ctx, v)
+        lemma_atm_rcu(ctx, v)
+        for h in v.by_role("UP"):
+            lemma_atm_no_cta(ctx, v, h, ("Handshake", "Data", "Error", "Terminate"))
+    unwrap_impl_lemma(ctx, model)
+    ctx.ob("CEN-H", "fan-in-operators", n == 13, "%d fan-in operators analysed (merge + 12 combine arities)" % n)
+    ctx.floor("ATM-no-cta", 79)
+    ctx.floor("ATM-order", 13)
+    ctx.floor("GRD-once", 2 + 78 * 4)
+
+
+@prop("C19", "other",
+      "Structural proof for every max >= 1 and any number of racing deliveries (both configurations): take's admission decision is "
+      "made by the atomic update of the counter itself - a fetch_update whose closure yields Some(t+1) iff t < max (closure lemma; "
+      "normal form pre(taken) < max), or a comparison on an RMW's own result - never by a separate load (ATM-no-cta, FIX-1); the "
+      "counter starts at 0, has no other writer, and so never exceeds max: at most max deliveries are admitted under every "
+      "interleaving; the datum is forwarded exactly once per admitted delivery, unchanged; completion is guarded by post(taken) == max "
+      "on the value the winning update returned (unique thread), which then sets the end flag, sends Terminate upstream and then to "
+      "the sink, exactly once each; ATM-order on all of take's atomics. The relative order of the winner's Terminate and a slower "
+      "thread's in-flight Data is not claimed (nor does the property claim it).",
+      axioms=["A6 (per delivering thread)"])
+def C19(ctx, model, tier, models):
+    census_operators(ctx, model)
+    n = 0
+    for v in views(model):
+        if v.family != "take":
+            continue
+        n += 1
+        h = v.by_role("UP")[0]
+        ck = lemma_take_admission(ctx, v, h)
+        # no other writer of the counter
+        if ck:
+            ws = cell_writes(v, ck[0])
+            ok = len(ws) == 1 and ws[0][1] == h and site_arms(v, h, ws[0][0].site) == ["Data"]
+            ctx.ob("ATM-single-writer", v.key(h, "Data", "ATM-single-writer", "counter"), ok, "the admission update is the counter's only write (%d write sites)" % len(ws), v.loc(h))
+        # ATM-no-cta on the counter specifically
+        bad = []
+        for p in v.arm(h, "Data"):
+            for s in send_sig(v, h, "Data", p):
+                if s[0] != "SINK":
+                    continue
+                for (i, a, ev) in guards_before(p, s[4]):
+                    if a[0] == "cmp" and counter_term(a[1]) and counter_term(a[1])[0] == "cur" and ck and counter_term(a[1])[1] == ck:
+                        bad.append("send of %s to the sink is decided by a plain load of the counter" % s[1])
+        ctx.ob("ATM-no-cta", v.key(h, "Data", "ATM-no-cta", "counter"), not bad, "no send is decided by a separate load of the counter" if not bad else bad[0], v.loc(h))
+        for e, b, arms in terminal_sink_sends(v):
+            if arms == ["Data"]:
+                _take_completion(ctx, v, b, e)
+        lemma_atm_order(ctx, v)
+        # exactly one upstream Terminate site in UP.D and it sits behind the same once-guard (checked in _take_completion)
+        ups = [(e, b) for e, b in upstream_terminal_sends(v) if b == h]
+        ctx.ob("PL-term-up", v.key(h, "Data", "PL-term-up", "single-site"), len(ups) == 1, "%d upstream terminal site(s) in the Data arm" % len(ups), v.loc(h))
+    ctx.ob("CEN-H", "take-present", n == 1, "take analysed")
+    ctx.floor("GRD-cmp", 1)
+    ctx.floor("GRD-once", 1)
+
+
+# ============================================================================= C20 tracing inertness (EQV-cfg)
+
+def canon(e, depth=0):
+    """Configuration-independent rendering of an expression (no block numbers, no closure indices)."""
+    if not isinstance(e, tuple) or not e:
+        return str(e)
+    if depth > 8:
+        return "…"
+    t = e[0]
+    c = lambda x: canon(x, depth + 1)
+    if t == "param": return "param%d@%s" % (e[2], BODYKEY.get(e[1], e[1]))
+    if t == "self": return "self"
+    if t == "upvar": return "upvar%d" % e[2]
+    if t == "saved": return "saved"
+    if t == "const": return str(e[2])
+    if t == "field": return "%s.%s" % (c(e[1]), e[2])
+    if t == "downcast": return "(%s as %s)" % (c(e[1]), e[2])
+    if t == "index": return "%s[%s]" % (c(e[1]), c(e[2]))
+    if t == "agg":
+        if e[1] in ("closure", "coroutine"):
+            return "closure<%s>" % BODYKEY.get(e[2], e[2])
+        return "%s(%s)" % (e[2] or e[1], ",".join(c(x) for x in e[3]))
+    if t == "call":
+        nm = e[2].split("::")[-1]
+        if nm in ("clone", "instrument") and e[3]:
+            return c(e[3][0])      # Clone of a user value / tracing_futures' wrapper: the same peer as far as the protocol goes
+        return "%s(%s)" % (nm, ",".join(c(x) for x in e[3]))
+    if t == "someof": return "some(%s)" % c(e[1])
+    if t in ("cellload", "aload", "lock"): return "%s[%s]" % (t, c(e[1]))
+    if t == "rmw": return "rmw_%s[%s,%s]" % (e[2], c(e[1]), c(e[3]))
+    if t == "binop": return "%s(%s,%s)" % (e[1], c(e[2]), c(e[3]))
+    if t == "unop": return "%s(%s)" % (e[1], c(e[2]))
+    if t in ("discr", "cast"): return "%s(%s)" % (t, c(e[1]))
+    if t == "phi": return "phi(%s)" % ",".join(sorted(c(x) for x in e[1]))
+    if t == "overflowed": return "ovf(%s)" % c(e[1])
+    return t
+
+BODYKEY = {}
+BODYKEYS = {"default": {}, "tracing": {}}
+
+
+def body_pair_key(model, bid):
+    b = model.prog.bodies[bid]
+    op = model.body_op.get(bid, "?")
+    return "%s@%s" % (op, b.span.get("sp"))
+
+
+def skeleton(v, bid, var):
+    """Set of visible-event sequences of one arm (tau removed)."""
+    global BODYKEY
+    BODYKEY = BODYKEYS[v.P.config]
+    out = set()
+    for p in v.arm(bid, var, inline=0):
+        toks = []
+        for ev in p.events:
+            if ev[0] == "eff":
+                e = ev[1]
+                if e.tracing or not effect_visible(v.P, e):
+                    continue
+                if e.kind == "send":
+                    toks.append("send:%s:%s:%s" % (v.cls_of(e)[0], e.variant, canon(e.payload) if e.payload is not None else "-"))
+                elif e.kind == "atomic":
+                    if e.op == "load":
+                        continue
+                    toks.append("atomic:%s:%s:%s:%s" % (canon(e.cell), e.op, canon(e.operand) if e.operand is not None else "-", ",".join(e.orderings)))
+                elif e.kind == "cell":
+                    if e.op in ("load", "load_full"):
+                        continue
+                    toks.append("cell:%s:%s:%s" % (canon(e.cell), e.op, canon(e.value) if e.value is not None else "-"))
+                elif e.kind == "pstore":
+                    toks.append("pstore:%s:%s" % (canon(e.place), canon(e.value) if isinstance(e.value, tuple) else e.value))
+                elif e.kind == "usercall":
+                    toks.append("user:%s(%s)" % (canon(e.fn), ",".join(canon(a) for a in e.args)))
+                elif e.kind == "thunk":
+                    toks.append("thunk:%s" % BODYKEY.get(e.target, e.target))
+                elif e.kind == "panic":
+                    if e.pk.startswith("assert"):
+                        continue
+                    toks.append("panic:%s" % e.pk)
+                elif e.kind == "spawn":
+                    toks.append("spawn:%s" % BODYKEY.get(e.task, e.task))
+                elif e.kind == "sleep":
+                    toks.append("sleep:%s" % canon(e.period))
+                elif e.kind in ("iternext", "poll", "lock", "localcall", "indirect"):
+                    toks.append("%s" % e.kind)
+            elif ev[0] == "br":
+                toks.append("if:%s=%s" % (canon(ev[1]), ev[2]))
+            elif ev[0] == "yield":
+                toks.append("yield")
+        out.add(" ; ".join(toks) + " => " + p.end)
+    return out
+
+
+def cfg_census(ctx):
+    """CEN-CFG: the only cfg predicates inside src/*.rs bodies / generic parameter lists are feature = "tracing"
+    (and, at module level in lib.rs, the per-operator features and doctest)."""
+    import os, glob
+    repo = os.environ.get("CB_REPO", "/repo")
+    bad = []
+    n = 0
+    op_feats = {"combine", "concat", "filter", "flatten", "for_each", "from_iter", "interval", "map", "merge", "pipe", "scan", "share", "skip", "take"}
+    for f in sorted(glob.glob(os.path.join(repo, "src", "**", "*.rs"), recursive=True)):
+        rel = os.path.relpath(f, repo)
+        txt = open(f).read()
+        # strip comments
+        txt2 = re.sub(r"//[^\n]*", "", txt)
+        for m in re.finditer(r"cfg(?:_attr)?\s*[!]?\s*\(", txt2):
+            # extract the balanced predicate
+            i = m.end()
+            depth = 1
+            j = i
+            while j < len(txt2) and depth:
+                depth += txt2[j] == "("
+                depth -= txt2[j] == ")"
+                j += 1
+            pred = re.sub(r"\s+", " ", txt2[i:j - 1]).strip()
+            if "cfg_attr" in m.group(0):
+                pred = pred.split(",")[0].strip()
+            n += 1
+            feats = set(re.findall(r'feature\s*=\s*"([^"]+)"', pred))
+            rest = re.sub(r'feature\s*=\s*"[^"]+"', "", pred)
+            rest = re.sub(r"\b(not|all|any)\b|[(),\s]", "", rest)
+            ok = False
+            if feats == {"tracing"} and rest == "":
+                ok = True
+            elif rel == "src/lib.rs" and feats <= op_feats and rest == "":
+                ok = True
+            elif rel == "src/lib.rs" and pred == "doctest":
+                ok = True
+            if not ok:
+                bad.append("%s: cfg(%s)" % (rel, pred))
+        for m in re.finditer(r"#\[cfg\(feature = \"tracing\"\)\]\s*\n?\s*([^\n]*)", txt2):
+            pass
+    # cfg_if! blocks: only `if #[cfg(feature = "tracing")]` is accepted (the regex above already saw their cfg(...) predicates)
+    ctx.ob("CEN-CFG", "cfg-census", not bad, "%d cfg predicates in src/: only feature=\"tracing\" inside bodies / generics" % n if not bad else "unexpected cfg predicate(s): %s" % bad[:3])
+
+
+def cfg_gated_statements(ctx):
+    """Statements under #[cfg(feature = "tracing")] may only define tracing values: the gated item/statement must mention
+    only spans (Span / *_span / enter / entered / instrument / trace_span / fmt / use)."""
+    import os, glob
+    repo = os.environ.get("CB_REPO", "/repo")
+    bad = []
+    n = 0
+    for f in sorted(glob.glob(os.path.join(repo, "src", "*.rs"))):
+        lines = open(f).read().split("\n")
+        for i, ln in enumerate(lines):
+            if re.match(r'\s*#\[cfg\(feature = "tracing"\)\]\s*$', ln):
+                # the gated statement: following lines up to the first line ending in ';' or '{' at depth 0 or a generic parameter ','
+                stmt = ""
+                j = i + 1
+                while j < len(lines):
+                    stmt += lines[j].strip() + " "
+                    if re.search(r"[;,{]\s*$", lines[j]) or lines[j].strip().endswith(")"):
+                        break
+                    j += 1
+                n += 1
+                s = stmt.strip()
+                ok = bool(re.match(r"^(use \{?[\w:, {}\n]*|let _?\w+ = [\w_]*span[\w_]*\.(enter|clone|entered)\(\);?|let \w*span\w* = (Span::current\(\)|[\w_]*span[\w_]*\.clone\(\));?|[A-Z]\w*: [\w:+ ']*fmt::Debug[\w:+ ']*,?|let nursery = nursery|\.clone\(\)|\.instrument\(.*)", s))
+                if not ok:
+                    bad.append("%s:%d: %s" % (os.path.relpath(f, repo), i + 2, s[:80]))
+    ctx.ob("CEN-CFG", "cfg-gated-statements", not bad, "%d statements/parameters gated on the tracing feature, all span bookkeeping or Debug bounds" % n if not bad else
+           "cfg(feature = \"tracing\")-gated code that is not span bookkeeping: %s" % bad[:3])
+
+
+def C20_post(ctx, models, tier):
+    global BODYKEY
+    md, mt = models["default"], models["tracing"]
+    keys = {}
+    BODYKEYS["default"], BODYKEYS["tracing"] = {}, {}
+    for name, m in (("default", md), ("tracing", mt)):
+        groups = {}
+        for bid, b in m.prog.bodies.items():
+            if b.tracing_prov or bid not in m.body_op:
+                continue
+            groups.setdefault(body_pair_key(m, bid), []).append(bid)
+        for k0, bids in groups.items():
+            # several closures may share one macro-definition span (combine's members): pair them in closure-index order
+            bids.sort(key=lambda x: [int(n) for n in re.findall(r"closure#(\d+)", x)])
+            for n, bid in enumerate(bids):
+                k = k0 if len(bids) == 1 else "%s#%d" % (k0, n)
+                BODYKEYS[name][bid] = k
+                keys.setdefault(k, {}).setdefault(name, []).append(bid)
+    ctx.config = "default+tracing"
+    programs = 0
+    disagreements = 0
+    samples = []
+    vd = {v.op.id: v for v in views(md)}
+    vt = {v.op.id: v for v in views(mt)}
+    for k, d in sorted(keys.items()):
+        a, b = d.get("default", []), d.get("tracing", [])
+        if len(a) != 1 or len(b) != 1:
+            # helper fns without handlers are not in views; only operator bodies must pair
+            opid = md.body_op.get(a[0]) if a else mt.body_op.get(b[0])
+            if opid in vd or opid in vt:
+                ctx.ob("EQV-cfg", "pairing:%s" % k, False, "body %s does not pair one-to-one across configurations (default %d, tracing %d)" % (k, len(a), len(b)))
+            continue
+        opid = md.body_op[a[0]]
+        if opid not in vd or opid not in vt:
+            continue
+        v1, v2 = vd[opid], vt[opid]
+        body = md.prog.bodies[a[0]]
+        arms = VARIANTS if body.is_handler() else [None]
+        for var in arms:
+            programs += 1
+            s1 = skeleton(v1, a[0], var)
+            s2 = skeleton(v2, b[0], var)
+            same = s1 == s2
+            key = "%s:%s%s:EQV-cfg" % (v1.name if v1.family != "combine" else v1.name, v1.label(a[0]), ("." + VSHORT[var]) if var else "")
+            if not same:
+                disagreements += 1
+                only1 = sorted(s1 - s2)[:1]
+                only2 = sorted(s2 - s1)[:1]
+                detail = "skeletons differ; only without tracing: %s | only with tracing: %s" % ([x[:160] for x in only1], [x[:160] for x in only2])
+            else:
+                detail = "%d visible-effect path(s), identical in both configurations" % len(s1)
+            ctx.ob("EQV-cfg", key, same, detail, v1.loc(a[0]))
+            if len(samples) < 6 and var in ("Data", "Handshake") and len(s1) >= 1:
+                samples.append({"body": k, "arm": var, "paths": len(s1), "example_path": sorted(s1)[0][:200], "equal": same})
+    # tau-purity of tracing-generated bodies
+    impure = []
+    n_tr = 0
+    for bid, b in mt.prog.bodies.items():
+        if not b.tracing_prov:
+            continue
+        n_tr += 1
+        body_effects(mt.prog, b)
+        for e in list(b.effects.values()) + list(b.stmt_effects.values()):
+            if e.kind in ("send", "cell", "atomic", "usercall", "spawn", "iternext") or (e.kind == "pstore" and not e.tracing):
+                impure.append("%s: %s at %s" % (bid, e.kind, e.loc))
+    ctx.ob("EQV-cfg", "tracing-closures-are-tau", not impure, "%d closures generated by tracing's macros have no protocol effect" % n_tr if not impure else "; ".join(impure[:3]))
+    cfg_census(ctx)
+    cfg_gated_statements(ctx)
+    ctx.ob("census-floor", "EQV-cfg:programs", programs >= 700, "%d paired (body, arm) programs compared" % programs)
+    return {"programs": programs, "disagreements_checked": disagreements, "samples": samples or [{"note": "no paired bodies"}]}
+
+
+@prop("C20", "translation_validation",
+      "EQV-cfg: every body of every operator is paired across the two feature configurations (by operator and closure-expression "
+      "span, because tracing's macros shift closure indices) and, per arm, the protocol skeleton - the set of paths projected on "
+      "visible effects (sends with receiver class / variant / payload provenance, cell and atomic writes with orderings, calls of "
+      "user closures with their arguments, thunk calls, spawn, sleep, iterator advance, explicit panics) and protocol branches - is "
+      "compared for equality. Everything of tracing provenance is tau on both sides of every tracing-internal branch (regions "
+      "dominated by a branch written inside tracing's macros are collapsed only if they contain no visible effect), so the result "
+      "holds with or without a subscriber. 'Each message expression is evaluated exactly once' is the payload / user-call part of "
+      "the skeleton. Closures generated by tracing's macros are shown to have no protocol effect; CEN-CFG: the only cfg predicate "
+      "inside bodies or generic parameter lists is feature = \"tracing\" (source census), and every statement gated on it is span "
+      "bookkeeping or a Debug bound. Assumed pure: Debug impls of user types (invoked by an enabled subscriber), Clone of N, span "
+      "bookkeeping.",
+      post=C20_post,
+      assumptions=["Debug impls of user types and Clone of the nursery are pure", "tracing's own functions do not call back into callbag handlers"])
+def C20(ctx, model, tier, models):
+    census_operators(ctx, model)
